@@ -11,6 +11,12 @@ Tie:   T — codes, option numbers, thresholds `<=`/`<`, Block1 addend, shortcut
            connections against scripted peers — interleaved connections, long transfers, one-way writes with No-Response,
            early negotiation with every wire encoding, observe x block-wise x request options x ETag placement.
            Thorough adds end-to-end Post/Get over the in-memory UDP and TCP connections (judge only).
+       Observe branch (Props/C04Observe.lean over Model/BlockwiseObserve.lean): block-wise notifications are part of X — the
+           real layer of side A gets an observation table (`observe`), B pushes the notification through its layer and serves
+           the follow-up GETs from its `resource`; message.GetToken is scripted (`fresh <tok>`, else 0xF0F0000000000000 + i:
+           the harness replaces crypto/rand.Reader while a case runs), so every line is compared literally
+           (`observe_blockwise_cases`: fault-free exponent pairs x boundary sizes, unregistered observation, exhaustive single
+           (thorough: double) faults, token clash, two notifications in flight, abandoned + expiry, stray blocks, random faults).
 """
 import glob
 import json
@@ -20,7 +26,7 @@ import re
 
 from . import common
 
-MODULES = ["CoapVerif.Props.C04"]
+MODULES = ["CoapVerif.Props.C04", "CoapVerif.Props.C04Observe"]
 GENERATED = ["Blockwise.lean", "BlockwiseXfer.lean"]
 
 POST, PUT, GET, CHANGED, CONTENT = 2, 3, 1, 68, 69
@@ -309,11 +315,135 @@ def gen_cases(ctx, driver):
     # ---- 3e. transfers abandoned on layers with transfer timeout 0: nothing may be held after the next sweep (clause `leak`)
     for c in zero_timeout_cases(rng, thorough):
         cases.append(c)
+    # ---- 3f. block-wise notifications (observe branch of the layer)
+    for c in observe_blockwise_cases(rng, thorough, driver):
+        cases.append(c)
     # ---- 4. random histories: several tokens, random faults, injected stray / foreign blocks, ETag flips, expiry
     nrand = 40000 if thorough else 3000
     for _ in range(nrand):
         cases.append(random_case(rng))
     return cases
+
+
+OBS_REQ_OTHER = "6:-,11:633034,15:743d31"   # Observe = 0 (register; empty value), Uri-Path "c04", Uri-Query "t=1"
+FRESH_BASE = 0xF0F0000000000000             # message.GetToken under the harness' token source: FRESH_BASE + i (see c04_test.go)
+
+
+def observe_blockwise_cases(rng, thorough, driver):
+    """Block-wise NOTIFICATIONS (RFC 7959 section 2.6) through the line protocol: A holds a registered observation (its layer's
+    getSentRequestFromOutside serves the request), B pushes a 2.05 with an Observe option and a body of several blocks through
+    its layer (one-way write: an observe response is not kept in B's sending cache); A's layer draws a NEW token and fetches the
+    rest with GETs (the observation's request without Observe) which B's application answers with its current resource.  The
+    token source is scripted (`fresh <tok>`, else FRESH_BASE + i), so model and implementation are compared literally."""
+    cases = []
+
+    def add(lines, kinds):
+        cases.append(Case(lines + ["end"], set(kinds) | {"observe-blockwise"}, True))
+
+    def head(tok, ln, seed, etag, seq, cfg, registered=True, req_other=OBS_REQ_OTHER, resp_other=RESP_OTHER):
+        l = [cfg, "reg A %d 1 0 0 - %s" % (tok, req_other)]
+        if registered:
+            l.append("observe A %d" % tok)
+        l += ["reg B %d 69 %d %d %s 6:%02x,%s" % (tok, ln, seed, etag, seq, resp_other),
+              "resource 69 %d %d %s %s" % (ln, seed, etag, resp_other)]
+        return l
+
+    def steps(sa, sb, ma, mb, ln):
+        return 2 * (ln // size(min(sa, sb)) + 2) + 2 * (max(buflen(sa, ma), buflen(sb, mb)) // size(min(sa, sb))) + 4
+
+    # 1. fault-free, exponent pairs x sizes around the block boundaries, with / without ETag, 8-byte and short original tokens
+    pairs = [(sa, sb) for sa in range(8) for sb in range(8)]
+    if not thorough:
+        pairs = rng.sample(pairs, 14) + [(0, 0), (2, 0), (0, 3)]
+    for (sa, sb) in pairs:
+        ma, mb = rng.choice(maxes(sa)), rng.choice(maxes(sb))
+        ub = buflen(sb, mb)
+        sizes = sorted(set(boundary_sizes(ub, 3)) | set(boundary_sizes(size(min(sa, sb)), 2)))
+        sizes = [x for x in sizes if x >= size(sb) and x <= 5000]
+        for ln in (sizes if thorough else rng.sample(sizes, min(len(sizes), 3))):
+            tok = rng.choice([rng.randrange(1, 1 << 40), (1 << 64) + 256 ** 2 + rng.randrange(1, 256 ** 2)])
+            etag = rng.choice(["-", "e%d" % rng.randrange(10)])
+            add(head(tok, ln, rng.randrange(200), etag, rng.randrange(2, 200), cfg_line(sa, ma, sb, mb)) +
+                ["write B %d" % tok] + ["net deliver"] * min(120, steps(sa, sb, ma, mb, ln)) + ["settle"],
+                {"observe-faultfree", "szx-%d-%d" % (sa, sb)})
+    # 2. the observation is not registered (any more): refused, nothing is handed on
+    for (sa, ma, sb, mb) in [(0, 80, 0, 80), (2, 128, 1, 96)]:
+        for ln in (2 * size(sb) + 1, 3 * size(sb)):
+            add(head(21, ln, 3, "e1", 9, cfg_line(sa, ma, sb, mb), registered=False) + ["write B 21"] + ["net deliver"] * 6,
+                {"observe-unregistered"})
+    # 3. single faults, exhaustive, on small configurations (thorough: double faults, capped)
+    for (sa, ma, sb, mb) in [(0, 80, 0, 80), (1, 96, 0, 80), (0, 80, 2, 128)]:
+        u = size(min(sa, sb))
+        for ln in (2 * buflen(sb, mb) + 1, 3 * u):
+            for etag in ("-", "e7"):
+                h = head(31, ln, 17, etag, 5, cfg_line(sa, ma, sb, mb)) + ["write B 31"]
+                n = plan_steps(driver, h) or steps(sa, sb, ma, mb, ln)
+                n = min(n, 20)
+                for d in ((1, 2) if thorough and n <= 12 else (1,)):
+                    vs = fault_variants(n, d)
+                    if d == 2 and len(vs) > 1200:
+                        vs = rng.sample(vs, 1200)
+                    for v in vs:
+                        add(h + v + ["net deliver"] * (n + 4), {"observe-faults-%d" % d})
+    # 4. the drawn token clashes with a live sending entry (a pending call of A under that very token): refused
+    for (sa, ma, sb, mb) in [(0, 80, 0, 80), (1, 96, 2, 128)]:
+        clash = 0x1122334455667788
+        ln = 2 * size(sb) + 5
+        h = head(41, ln, 23, "e2", 7, cfg_line(sa, ma, sb, mb))
+        add(h + ["reg A %d 1 0 0 - %s" % (clash, REQ_OTHER), "do %d 20000" % clash, "fresh %d" % clash, "write B 41"] +
+            ["net deliver"] * 8, {"observe-fresh-clash"})
+        # ... and the same token when nothing is held under it: accepted
+        add(h + ["fresh %d" % clash, "write B 41"] + ["net deliver"] * 12 + ["settle"], {"observe-fresh-scripted"})
+    # 5. two notifications of one observation in flight at the same time (B serves each follow-up token with the body that
+    #    notification announced): lock step, and with swaps
+    for (sa, ma, sb, mb) in [(0, 80, 0, 80), (1, 96, 0, 80), (2, 128, 2, 128)]:
+        u = size(min(sa, sb))
+        for variant in range(4 if thorough else 2):
+            l1, l2 = 2 * buflen(sb, mb) + 1 + variant, 3 * buflen(sb, mb) - variant
+            tok = 51
+            f1, f2 = FRESH_BASE, FRESH_BASE + 1
+            lines = [cfg_line(sa, ma, sb, mb), "reg A %d 1 0 0 - %s" % (tok, OBS_REQ_OTHER), "observe A %d" % tok,
+                     "reg B %d 69 %d 61 a1 6:05,%s" % (tok, l1, RESP_OTHER), "reg B %d 69 %d 61 a1 %s" % (f1, l1, RESP_OTHER),
+                     "write B %d" % tok,
+                     "reg B %d 69 %d 62 b2 6:06,%s" % (tok, l2, RESP_OTHER), "reg B %d 69 %d 62 b2 %s" % (f2, l2, RESP_OTHER),
+                     "write B %d" % tok]
+            r2 = random.Random(rng.randrange(1 << 30))
+            script = []
+            # (the two first blocks arrive in the order they were sent: the follow-up tokens are handed out in that order and
+            #  B's answers are registered per follow-up token; afterwards the relay swaps at will)
+            script = ["net deliver", "net deliver"]
+            for _ in range(2 * steps(sa, sb, ma, mb, l2) + 6):
+                script.append("net swap" if (variant and r2.random() < 0.3) else "net deliver")
+            add(lines + script + ["net deliver"] * 30, {"observe-interleaved"})
+    # 6. abandoned: a follow-up is lost, the entries under the new token expire (swept / not swept), a late block is refused
+    for (sa, ma, sb, mb) in [(0, 80, 0, 80), (2, 128, 1, 96)]:
+        ln = 3 * size(sb) + 2
+        for k in (1, 2, 3):
+            for sweep_ in (True, False):
+                h = head(61, ln, 29, "e3", 4, cfg_line(sa, ma, sb, mb, 200, 200)) + ["write B 61"] + ["net deliver"] * k
+                add(h + ["net drop", "sleep 250"] + (["tick A", "tick B"] if sweep_ else []) + ["net replay %d" % (k - 1), "net deliver", "net deliver"],
+                    {"observe-abandoned", "time"})
+    # 7. stray first blocks with nothing held: a notification whose only block carries Block2 0/last (handed on as it is; the
+    #    clone under the new token just expires), and a block flagged last that is not block 0 (refused)
+    for (num, more, total) in [(0, 0, 12), (2, 0, 40)]:
+        h = head(71, total, 33, "-", 3, cfg_line(0, 80, 0, 80))
+        blk = "inject A 69 71 - 0/%d/%d - %d - 6:03,%s 33 %d %d" % (num, more, total, RESP_OTHER, 16 * num, total - 16 * num)
+        add(h + [blk] + ["net deliver"] * 6 + ["sleep 4000", "tick A"], {"observe-stray"})
+    # 8. random faults
+    for _ in range(1500 if thorough else 150):
+        sa, sb = rng.randrange(3), rng.randrange(3)
+        ma, mb = rng.choice(maxes(sa)), rng.choice(maxes(sb))
+        ln = rng.randrange(size(sb), 5 * size(sb))
+        tok = rng.randrange(1, 1 << 40)
+        h = head(tok, ln, rng.randrange(200), rng.choice(["-", "c3"]), rng.randrange(2, 100), cfg_line(sa, ma, sb, mb)) + ["write B %d" % tok]
+        script = []
+        for i in range(steps(sa, sb, ma, mb, ln) + 6):
+            x = rng.random()
+            script.append("net deliver" if x < 0.7 else "net dup" if x < 0.8 else "net drop" if x < 0.86 else "net swap" if x < 0.93
+                          else "net replay %d" % rng.randrange(0, i + 1))
+        add(h + script + ["net deliver"] * 10, {"observe-random"})
+    return cases
+
 
 
 def inject_block(dst, code, tok, bt, szx, num, ln, etag, other, seed):
